@@ -13,7 +13,7 @@ import os
 import vlib
 
 TYPES = ("char", "wchar_t", "char16_t")
-CHUNK = 250000          # events per trace file (one TLC each)
+CHUNK = 150000          # events per trace file (one TLC each)
 
 # (tag, constants, character types that replay it)
 DOMAINS = {
@@ -133,7 +133,7 @@ def execute(tier, inputs, binpath, impl, tags=None, tag="", env=None, nrandom=No
 def validate(paths, tag, keep_bad=True):
     # many single-worker TLC processes side by side: keep each JVM's collector small
     os.environ.setdefault("JAVA_TOOL_OPTIONS", "-XX:ParallelGCThreads=2")
-    tv = vlib.tv_parallel("StringViewTrace.tla", "StringViewTrace.cfg", paths, tag, par=min(vlib.NCPU, 10), heap="4g")
+    tv = vlib.tv_parallel("StringViewTrace.tla", "StringViewTrace.cfg", paths, tag, par=min(vlib.NCPU, 6), heap="2g")
     return tv
 
 
